@@ -129,6 +129,13 @@ where
             .next_back()
             .cloned();
 
+        if let Some(r) = &right {
+            if r.contains(value) {
+                // already free: nothing to merge (and `value + 1` below could overflow at the type maximum)
+                return;
+            }
+        }
+
         match (left, right) {
             (Some(l), Some(r)) if l.high + T::one() == value && value + T::one() == r.low => {
                 self.pool.remove(&l);
